@@ -330,6 +330,7 @@ class Interp(Hooks):
         self.inlined_functions: set[str] = set()
         self.bool_defs: dict[str, ast.expr] = {}
         self.comp_defs: dict[str, ast.expr] = {}
+        self.table_defs: dict[str, ast.DictComp] = {}  # name -> {k: f(k) for k in xs}: a function table, T[x] is f(x)
         self.nt_registry: dict[str, list[str]] = {}
         self.dict_defs: dict[str, ast.Dict] = {}
         self.site0 = None
@@ -459,6 +460,11 @@ class Interp(Hooks):
             b = self.term(e.value, d)
             if isinstance(e.slice, ast.Constant) and isinstance(e.slice.value, int):
                 return self._index(b, e.slice.value, d)
+            # a function table built by a dict comprehension in the current graph state: T[x] is f(x)
+            if isinstance(e.value, ast.Name) and e.value.id in self.table_defs and d.vars.get(f"__tdef.{e.value.id}") == str(d.epoch):
+                dc = self.table_defs[e.value.id]
+                kt = self.term(e.slice, d)
+                return self._with_binding(dc.generators[0].target, kt, d, lambda: self.term(dc.value, d))
             # children[1 - children.index(n)]: the other one of the two children of p (n is known to be one of them)
             sl = e.slice
             if isinstance(sl, ast.BinOp) and isinstance(sl.op, ast.Sub) and isinstance(sl.left, ast.Constant) and sl.left.value == 1 and isinstance(sl.right, ast.Call) \
@@ -2210,6 +2216,10 @@ def _engine_transfer(self: Engine, st: PState, stmt: ast.stmt, _ret: bool) -> No
                 d.vars[f"__bdef.{t.id}"] = str(d.epoch)
             if isinstance(t, ast.Name) and isinstance(stmt.value, ast.Dict) and stmt.value.keys and all(isinstance(k_, ast.Constant) for k_ in stmt.value.keys):
                 self.dict_defs[t.id] = stmt.value
+            if isinstance(t, ast.Name) and isinstance(stmt.value, ast.DictComp) and len(stmt.value.generators) == 1 and not stmt.value.generators[0].ifs \
+                    and isinstance(stmt.value.generators[0].target, ast.Name) and isinstance(stmt.value.key, ast.Name) and stmt.value.key.id == stmt.value.generators[0].target.id:
+                self.table_defs[t.id] = stmt.value
+                d.vars[f"__tdef.{t.id}"] = str(d.epoch)
             if isinstance(t, ast.Name) and isinstance(stmt.value, (ast.ListComp, ast.SetComp)) and len(stmt.value.generators) == 1 and stmt.value.generators[0].ifs:
                 self.comp_defs[t.id] = stmt.value
                 d.vars[f"__cdef.{t.id}"] = str(d.epoch)
